@@ -20,4 +20,7 @@ INSTANCE AutodiffImpl WITH SAdd <- IAdd, SMul <- IMul, SNeg <- INeg, SDiv <- IDi
 \* the next-state relation restated at the root so that TLC reports one coverage count per action
 MCNext == Build \/ Freeze \/ Begin \/ Eval \/ Deliver \/ Store \/ Clear
 MCSpec == Init /\ [][MCNext]_vars
+\* liveness: under weak fairness of the pass actions every started pass finishes (no state constraint)
+MCFair == MCSpec /\ WF_vars(Eval \/ Deliver \/ Store)
+PassesFinish == []<>(stack = <<>>)
 =============================================================================
